@@ -148,9 +148,15 @@ func (db *DB) Compact() (CompactionResult, error) {
 	}()
 
 	verifYield(1)
-	db.mu.RLock()
+	db.mu.Lock()
 	segments := db.pickForCompaction()
-	db.mu.RUnlock()
+	for _, seg := range segments {
+		// Seal the picked segments right away. A delete record written to a picked segment
+		// by a concurrent Delete would be dropped without compacting the older segments
+		// that still hold the put records of the key.
+		seg.meta.Full = true
+	}
+	db.mu.Unlock()
 
 	for _, seg := range segments {
 		segcr, err := db.compact(seg)
